@@ -5,6 +5,12 @@
 (*    held/not held), every unpaid kind x path x key x held, every parse   *)
 (*    class on every path: one scenario each (a set-up delivery first when *)
 (*    the address must already be held).                                   *)
+(*    Plus (one condition at a time): the failing quote / this node's     *)
+(*    quote at every position, per-quote contract verdicts and a failing  *)
+(*    contract, payees at the edge of the K closest, duplicated payees,   *)
+(*    two own quotes, 1/2/4/5 quotes (ExtCases); the way in through       *)
+(*    RecordStore::put + validation (KadValidateCases); the size limit on *)
+(*    both sides (SizeCases); entries tampered with after signing.        *)
 (*  - C07: every sequence of up to SeqLen deliveries for ONE address drawn *)
 (*    from a pool of scratchpad / transaction / register variants on the   *)
 (*    three admissible paths.                                              *)
